@@ -283,6 +283,61 @@ def _counters(ctx):
     return node_cls, server
 
 
+_COUNTER_MUTATORS = ('clear', 'update', 'subtract', 'pop', 'popitem',
+                     'setdefault', '__setitem__', '__delitem__')
+
+
+def _counter_owner(ctx):
+    """C04.1 OWNER (whole package): the affinity counter of a node changes
+    only inside increment_affinity / decrement_affinity (and is created by a
+    constructor).  Whoever else clears, re-assigns or edits
+    ``<node>.affinity_counters`` breaks "count = instances placed below":
+    the routines that attach and detach children already withdraw and add
+    what the children hold."""
+    owners = ('increment_affinity', 'decrement_affinity', '__init__')
+    judged = 0
+    ctx.index.load_all()
+    for mod in list(ctx.index.modules.values()):
+        if 'affinity_counters' not in mod.source:
+            continue
+        if '.tests.' in mod.name or mod.name.endswith('.tests'):
+            continue
+        for func in mod.live_functions():
+            if func.name in owners:
+                continue
+            for sub in K.walk_no_nested(func.raw):
+                bad = None
+                if isinstance(sub, ast.Call) and isinstance(
+                        sub.func, ast.Attribute) and \
+                        sub.func.attr in _COUNTER_MUTATORS and \
+                        N.txt(sub.func.value).endswith('.affinity_counters'):
+                    bad = sub
+                tgts = sub.targets if isinstance(sub, (ast.Assign,
+                                                       ast.Delete)) else \
+                    [sub.target] if isinstance(sub, ast.AugAssign) else []
+                for tgt in tgts:
+                    base = tgt.value if isinstance(tgt, ast.Subscript) \
+                        else tgt
+                    if isinstance(base, ast.Attribute) and \
+                            base.attr == 'affinity_counters':
+                        bad = sub
+                if bad is not None:
+                    ctx.fail('C04.1', func, bad,
+                             'the affinity counter of a node is edited '
+                             'outside increment_affinity / decrement_affinity'
+                             ': it no longer equals the instances placed '
+                             'below the node',
+                             construct='counter owner: %s' % N.txt(bad)[:50])
+        judged += 1
+    ctx.ok('C04.1', 'treadmill', None,
+           'affinity counters are edited only by increment_affinity / '
+           'decrement_affinity and created by constructors (%d modules '
+           'mentioning them)' % judged, construct='counter owner',
+           file='lib/python/treadmill/scheduler/__init__.py')
+    ctx.require(judged >= 1, 'modules mentioning affinity_counters',
+                rule='C04.1')
+
+
 def _polarity(ctx, node_cls):
     index = ctx.index
     nz = N.Normaliser()
@@ -644,6 +699,7 @@ def check(ctx):
     _every_level(ctx, node_cls, server, base)
     _attach_empty(ctx)
     _affinity_fixed(ctx)
+    _counter_owner(ctx)
     # shared with C10.3 / C01.9: an instance recorded under several servers
     # at a restart is taken off every one of them through Server.remove (a
     # copy that stays keeps counting on its server, rack and cell while the
